@@ -18,6 +18,22 @@ def run(v, tier, replay):
         raise lib.Inconclusive("self-test: Equiv not violated by ClearCap = NumBlocks-1")
     v.cov["selftest_design_mutant_detected"] = True
     v.cov["exhaustive"] = True
+    # ---- unbounded counters: inductive invariant discharged by Apalache (4 blocks x 4 bits, counters in all of Nat)
+    import concurrent.futures
+    src = open(os.path.join(lib.SPEC, "ReplayWindowInd.tla")).read()
+    bad = src.replace("MODULE ReplayWindowInd", "MODULE ReplayWindowIndBad").replace("diff == IF s > wt THEN Min(ub - uc, N) ELSE 0", "diff == IF s > wt THEN Min(ub - uc, N - 1) ELSE 0")
+    jobs = [("base: Init => IndInv", "ReplayWindowInd", None, "Init", "IndInv", 0, "NoError"),
+            ("step: IndInv /\\ Next => IndInv'", "ReplayWindowInd", None, "IndInit", "IndInv", 1, "NoError"),
+            ("IndInv => equal verdicts for an arbitrary counter", "ReplayWindowInd", None, "IndInit", "Equiv", 0, "NoError"),
+            ("non-vacuity: IndInit has non-trivial states", "ReplayWindowInd", None, "IndInit", "Trivial", 0, "Error"),
+            ("self-test: clearing loop one block short breaks the step", "ReplayWindowIndBad", bad, "IndInit", "IndInv", 1, "Error")]
+    with concurrent.futures.ThreadPoolExecutor(max_workers=5) as ex:
+        outs = list(ex.map(lambda j: lib.apalache(j[1], j[3], j[4], j[5], timeout=1500, text=j[2]), jobs))
+    v.cov["apalache"] = [dict(obligation=j[0], outcome=o if not o.startswith("other") else "other") for j, o in zip(jobs, outs)]
+    for j, o in zip(jobs, outs):
+        if o != j[6]:
+            raise lib.Inconclusive("Apalache obligation '%s': expected %s, got %s" % (j[0], j[6], o))
+    v.assumptions.append("unbounded counters: inductive invariant ReplayWindowInd!IndInv (base, step, implication of equal verdicts, non-vacuity, failing variant) discharged by Apalache for the 4x4 geometry; the real 8x64 geometry is reached by TLC's three geometries plus the monotone scaling argument")
 
     binp = lib.go_build("c14")
     sd = lib.scratch("vf-c14-")
